@@ -24,6 +24,10 @@ class DefaultDelay(SimpleCommand):
     def init_env(cls, env: Environment) -> None:
         env.var.new_system_var(cls.sys_var, 0)
 
+    def verify_arg(self, arg: Line) -> str | None:
+        if arg.content < 0:
+            return "Default delay value cannot be below 0."
+
     def verify_args(self, args: Arguments) -> str | None:
         if len(args) > 1:
             self.stack.add_warning(
